@@ -17,6 +17,19 @@ from ..harness import Harness
 from ..engine import Query
 from ..lib.descriptors import make_collection, response_monitor
 
+# FINDINGS (genuine defects found by this check on the original tree, fixed in /repo)
+#   8a197de "fix: GetDescriptorHandlerDistributed ends an exactly-packet-sized descriptor with a ZLP"
+#       start_position == descriptor length (all packets full, wLength larger) was truncated/clamped into the
+#       generator's narrow start_position: data was re-sent instead of a ZLP.
+#       Caught by: bmc_h_distributed_* assert:zlp (also no_response/spurious), bmc_r_ready1_*dist* assert:zlp/payload.
+#   65fd146 "fix: do not add a second language descriptor when splitting fixed and run-time descriptors"
+#       with a run-time descriptor present both the ROM handler and the distributed handler answered STRING 0 (the
+#       split collections re-added the default language descriptor).
+#       Caught by: bmc_h_mux_* assert:payload/first/last/gap/spurious, bmc_r_*_rt assert:payload.
+#   f190aac "fix: GetDescriptorHandlerMux ignores the previous request's stall latch when a new request starts"
+#       a request served by the distributed handler left the ROM handler's stall latch set; the next request for a
+#       ROM descriptor was STALLed.  Caught by: bmc_h2_mux_* assert:stall_exists (two different requests in a row).
+
 PROP = "C09"
 ENCODED = [
     "luna/gateware/usb/usb2/descriptor.py: GetDescriptorHandlerBlock (generate_rom_content layout, index map, FSM, "
@@ -259,7 +272,7 @@ class RequestHarness(Harness):
 
 STMT = ["payload", "first", "last", "gap", "zlp", "stall_exists", "data_nonexistent", "no_response", "spurious", "too_long"]
 H2_ASSERTS = ["stall_exists", "data_nonexistent", "no_response", "spurious", "zlp"]
-DEEP_COVERS = ["full_packet", "zlp", "continuation", "exact_multiple_zlp", "retransmission", "status_after_data"]
+DEEP_COVERS = ["full_packet", "zlp", "exact_multiple_zlp", "retransmission", "status_after_data"]
 
 
 def _h(variant, kind, mps, K, *, split, required=True, covers=None, cosim=0):
@@ -328,9 +341,9 @@ def queries(tier):
     qs += _h("distributed", "suite", 8, 16, split=True)
     for v, k, p in (("block", "dense", 32), ("distributed", "sparse", 32), ("block", "sparse", 64), ("distributed", "dense", 64)):
         qs += _h(v, k, p, p + 8, split=True, required=False, covers=[])
-    full_covers = DEEP_COVERS + ["short_packet", "stall", "third_packet", "cut_by_wlength"]
+    full_covers = DEEP_COVERS + ["continuation", "short_packet", "stall", "third_packet", "cut_by_wlength"]
     for ab, k, rt in ((False, "sparse", False), (True, "sparse", False), (False, "dense", True), (True, "dense", True)):
         qs += _r(ab, k, 8, rt, kfree=18, kdeep=28, split=True, cosim=500, deep_covers=full_covers)
     qs += _r(False, "sparse", 8, True, kdeep=24, pin=0x0100, split=True)
-    qs += _r(False, "sparse", 16, False, kfree=26, kdeep=44, split=True, required=False, deep_covers=DEEP_COVERS)
+    qs += _r(False, "sparse", 16, False, kfree=26, kdeep=44, split=True, required=False, deep_covers=DEEP_COVERS + ["continuation"])
     return qs
